@@ -243,10 +243,11 @@ Qed.
 Lemma Inv_step : forall cfg st m o, Inv cfg st m ->
   Inv cfg (step cfg st o) (mon_step cfg m o (fired cfg o)).
 Proof.
-  intros cfg st m o HI. destruct o as [c oa|c|c|c oa d]; cbn [step mon_step fired].
+  intros cfg st m o HI. destruct o as [c oa|c|c|c oa ob|c oa d]; cbn [step mon_step fired].
   - apply Inv_observe, HI.
   - apply Inv_mark, HI.
   - apply Inv_disconnect, HI.
+  - apply Inv_observe, Inv_observe, HI.
   - destruct (hook_fires cfg c oa).
     + apply Inv_observe, Inv_disconnect, HI.
     + apply Inv_observe, HI.
